@@ -323,7 +323,7 @@ func (lv *c13Level) has(subs ...string) bool {
 		return false
 	}
 	for _, m := range lv.exits {
-		if _, ok := hasLabel(m, subs...); !ok {
+		if !c13HasLabel(m, subs...) {
 			return false
 		}
 	}
@@ -373,21 +373,38 @@ type c13Univ struct {
 	site     string // where the (last) qualifying loop is
 }
 
-func (u *c13Univ) sel(in *c13Inst, el string) EdgeSel {
-	g := u.gate(in, el)
-	if u.cond == nil {
-		return g
+// gateCut: the edges of in.fn that establish the gate for the element(s) el — by their label, or because a module
+// predicate that decides them answers so only behind the gate (fourth pass, c13GateCut) — plus the edges on which the
+// clause does not apply. n counts the gate's elementary facts only.
+func (u *c13Univ) gateCut(in *c13Inst, el string) c13Gate {
+	gc := c13GateCut(u.c.W, in.fn, u.gate(in, el), c13GateDepth, nil)
+	if u.cond != nil {
+		for e := range u.c.W.Info(in.fn).edgesMatching(u.cond(in)) {
+			gc.cut[e] = true
+		}
 	}
-	cd := u.cond(in)
-	return func(l string, iff *ssa.If, truth bool) bool { return g(l, iff, truth) || cd(l, iff, truth) }
+	return gc
+}
+
+// c13ElemPrefix: how the element of the current iteration of a loop over a slice is rendered: "<slice>[@<index>]" with the
+// loop's own induction value (fourth pass: `certs[len(certs)-1]` or the element of another loop over the same slice is
+// not "the certificate of this iteration"); "<slice>[" when the loop has no recognisable index.
+func c13ElemPrefix(l *loopRef) string {
+	if l.Idx != nil {
+		if _, isConst := l.Idx.(*ssa.Const); !isConst {
+			return desc(l.X) + "[" + descIndex(l.Idx) + "]"
+		}
+	}
+	return desc(l.X) + "["
 }
 
 // iterGated: no iteration of loop l (over the certificates) completes or returns successfully without the gate.
 func (u *c13Univ) iterGated(in *c13Inst, l *loopRef) bool {
 	w := u.c.W
 	fi := w.Info(in.fn)
-	el := desc(l.X) + "["
-	if ok, _ := iterBlocked(fi, l, Mode{Kind: mErr}, u.sel(in, el)); ok && len(fi.edgesMatching(u.gate(in, el))) >= u.minEdges {
+	el := c13ElemPrefix(l)
+	if gc := u.gateCut(in, el); gc.n >= u.minEdges && !fi.reachHit([]state{{l.Body.Index, 0, -1}}, gc.cut, map[int]bool{l.Header.Index: true}) &&
+		c13Witness(fi, []state{{l.Body.Index, 0, -1}}, gc, backEdges(l.Header)) == nil {
 		return true
 	}
 	// or: every completed iteration passes helper(element, …) err == nil, and the helper succeeds only behind the gate
@@ -402,7 +419,7 @@ func (u *c13Univ) iterGated(in *c13Inst, l *loopRef) bool {
 			}
 			p := "param:" + kid.fn.Params[i].Name()
 			kfi := w.Info(kid.fn)
-			if ok, _, _ := exitsBlocked(kfi, Mode{Kind: mErr}, u.sel(kid, p), nil); ok && len(kfi.edgesMatching(u.gate(kid, p))) >= u.minEdges {
+			if kgc := u.gateCut(kid, p); kgc.n >= u.minEdges && c13Witness(kfi, entryState(), kgc) == nil {
 				u.c.SeenFn(kid.fn.String())
 				return true
 			}
@@ -1023,4 +1040,312 @@ func (acc *c13Acc) grown(fn *ssa.Function, outer *loopRef, v ssa.Value, isCerts 
 		}
 	}
 	return true
+}
+
+// ---------------------------------------------------------------------------------------------------------------------
+// C13, fourth pass: THE DECISION OF A GATE MAY BE MADE BY A MODULE PREDICATE. "Every certificate is a CA or self-signed"
+// was recognised by the two edges `cert.IsCA` true / `cert.CheckSignature(…) err == nil` in the body of the loop (or of a
+// per-element helper with an error result). The same decision can be taken one level down without any of those edges
+// being in the loop: `if cert.IsCA || isSelfSigned(cert) { continue }` with `isSelfSigned(c) bool { return
+// c.CheckSignature(…) == nil }`, the whole disjunction in `acceptable(c) bool`, the negation in `rejected(c) bool`, or a
+// helper with an error result for one of the alternatives only.
+//
+// Rule: an edge of a function establishes the gate if
+//   (1) its canonical label is one of the accepted facts (as before), or
+//   (2) it is decided by an outcome of a call of a module function (`helper(…)` true / false, `helper(…) err == nil`,
+//       `v, ok := helper(…)` ok true / false) and — in the helper, labels translated to the caller's frame by substituting
+//       the parameters by the arguments of THAT call — the outcome cannot be produced once the establishing edges of the
+//       helper (the same definition, one level down) are removed, where an exit that hands back a boolean that IS an
+//       accepted fact (`return c.CheckSignature(…) == nil`, or the call of a further module predicate that qualifies)
+//       produces the outcome only if the fact holds.
+// Soundness: if the helper can produce the outcome only along paths on which an accepted fact about the caller's
+// argument holds, then passing the caller's edge that tests for the outcome implies an accepted fact: the decision was
+// moved, not dropped. The substitution binds the fact to the value the caller passes, so a predicate asked about another
+// certificate (or about a constant) does not qualify; a helper with no gate edge never qualifies (n > 0); recursion is
+// bounded and a function is never re-entered.
+// This is the composition extra_c09.go makes for its gates (c09GateCut), restated here so that C13 does not depend on
+// another property's file.
+// ---------------------------------------------------------------------------------------------------------------------
+
+// c13Outcome names the outcomes of a helper that an edge of the caller stands for.
+type c13Outcome struct {
+	errNil bool // the error result is nil (when the helper has one)
+	k      int  // >= 0: boolean result k equals want
+	want   bool
+}
+
+// c13Gate: the establishing edges of one function.
+type c13Gate struct {
+	cut   map[edgeKey]bool   // edges on which an accepted fact holds
+	tails map[*ssa.Call]bool // forwarded calls (`return helper(…)`) whose own success needs an accepted fact
+	n     int                // elementary facts found (in the function and in the helpers it relies on)
+}
+
+const c13GateDepth = 3
+
+// c13EdgeOutcome: the value `cond == truth` is decided by the result of a call of a module function: which call, and
+// which outcomes of the callee make it so.
+func c13EdgeOutcome(w *World, cond ssa.Value, truth bool) (*ssa.Call, c13Outcome, bool) {
+	for {
+		u, ok := cond.(*ssa.UnOp)
+		if !ok || u.Op != token.NOT {
+			break
+		}
+		cond, truth = u.X, !truth
+	}
+	usable := func(c *ssa.Call) bool {
+		g := staticCallee(c)
+		return g != nil && g.Blocks != nil && w.IsProductFn(g) && len(c.Call.Args) == len(g.Params)
+	}
+	isBool := func(t types.Type) bool {
+		b, ok := t.Underlying().(*types.Basic)
+		return ok && b.Kind() == types.Bool
+	}
+	switch x := cond.(type) {
+	case *ssa.BinOp:
+		var o ssa.Value
+		if isNilConst(x.Y) {
+			o = x.X
+		} else if isNilConst(x.X) {
+			o = x.Y
+		} else {
+			return nil, c13Outcome{}, false
+		}
+		isNil := (x.Op == token.EQL && truth) || (x.Op == token.NEQ && !truth)
+		if !isNil || !isErrorType(o.Type()) {
+			return nil, c13Outcome{}, false
+		}
+		if c := callOf(o); c != nil && usable(c) {
+			return c, c13Outcome{errNil: true, k: -1}, true
+		}
+	case *ssa.Call:
+		if isBool(x.Type()) && usable(x) {
+			return x, c13Outcome{k: 0, want: truth}, true
+		}
+	case *ssa.Extract:
+		if c, ok := x.Tuple.(*ssa.Call); ok && isBool(x.Type()) && usable(c) {
+			return c, c13Outcome{errNil: c13ReturnsError(staticCallee(c)), k: x.Index, want: truth}, true
+		}
+	}
+	return nil, c13Outcome{}, false
+}
+
+// c13FrameSel hands the selection the labels of the callee translated into the caller's frame.
+func c13FrameSel(c *ssa.Call, sel EdgeSel) EdgeSel {
+	g := staticCallee(c)
+	names := make([]string, len(g.Params))
+	descs := make([]string, len(g.Params))
+	for i, p := range g.Params {
+		names[i] = p.Name()
+		descs[i] = desc(c.Call.Args[i])
+	}
+	return func(l string, iff *ssa.If, truth bool) bool { return sel(substParams(l, names, descs), iff, truth) }
+}
+
+// c13SelLabel: the selection accepts the label or its symmetric spelling.
+func c13SelLabel(sel EdgeSel, l string, iff *ssa.If, truth bool) bool {
+	if sel(l, iff, truth) {
+		return true
+	}
+	tw, ok := labelTwin(l)
+	return ok && sel(tw, iff, truth)
+}
+
+// c13OutcomeBlocked: the number of elementary facts behind the outcome cl of the call c if the callee can produce that
+// outcome only through establishing edges (0: it can produce it otherwise, or it has no gate at all).
+func c13OutcomeBlocked(w *World, c *ssa.Call, cl c13Outcome, sel EdgeSel, depth int, busy map[*ssa.Function]bool) int {
+	g := staticCallee(c)
+	if depth <= 0 || g == nil || busy[g] {
+		return 0
+	}
+	busy[g] = true
+	defer delete(busy, g)
+	fsel := c13FrameSel(c, sel)
+	sub := c13GateCut(w, g, fsel, depth-1, busy)
+	if sub.n == 0 || c13OutcomeReachable(w, g, sub, fsel, cl, depth-1, busy) {
+		return 0
+	}
+	return sub.n
+}
+
+// c13GateCut: the establishing edges of fn for the accepted facts sel (labels in the frame of fn).
+func c13GateCut(w *World, fn *ssa.Function, sel EdgeSel, depth int, busy map[*ssa.Function]bool) c13Gate {
+	gc := c13Gate{cut: map[edgeKey]bool{}, tails: map[*ssa.Call]bool{}}
+	if busy == nil {
+		busy = map[*ssa.Function]bool{}
+	}
+	for _, b := range fn.Blocks {
+		iff, ok := blockTerm(b).(*ssa.If)
+		if !ok || len(b.Succs) != 2 {
+			continue
+		}
+		for j := 0; j < 2; j++ {
+			if c13SelLabel(sel, condLabel(iff.Cond, j == 0), iff, j == 0) {
+				gc.cut[edgeKey{b.Index, j}] = true
+				gc.n++
+				continue
+			}
+			if c, cl, ok := c13EdgeOutcome(w, iff.Cond, j == 0); ok {
+				if n := c13OutcomeBlocked(w, c, cl, sel, depth, busy); n > 0 {
+					gc.cut[edgeKey{b.Index, j}] = true
+					gc.n += n
+				}
+			}
+		}
+	}
+	for _, b := range fn.Blocks {
+		r, ok := blockTerm(b).(*ssa.Return)
+		if !ok {
+			continue
+		}
+		// `return <fact>`: the boolean handed back is itself an accepted fact (or its negation)
+		for _, v := range r.Results {
+			if bt, isB := v.Type().Underlying().(*types.Basic); !isB || bt.Kind() != types.Bool {
+				continue
+			}
+			vals := []ssa.Value{v}
+			if p, ok := v.(*ssa.Phi); ok && p.Block() == b {
+				vals = p.Edges
+			}
+			for _, x := range vals {
+				if _, isConst := x.(*ssa.Const); isConst {
+					continue
+				}
+				if c13SelLabel(sel, condLabel(x, true), nil, true) || c13SelLabel(sel, condLabel(x, false), nil, false) {
+					gc.n++
+					continue
+				}
+				// `return … || further(c)`: the answer of a further module predicate that gives it only behind an accepted fact
+				if c, cl, ok := c13EdgeOutcome(w, x, true); ok {
+					n := c13OutcomeBlocked(w, c, cl, sel, depth, busy)
+					cl.want = !cl.want
+					if m := c13OutcomeBlocked(w, c, cl, sel, depth, busy); m > n {
+						n = m
+					}
+					gc.n += n
+				}
+			}
+		}
+		// `return helper(…)`: the exit succeeds iff the helper does
+		if len(r.Results) == 0 {
+			continue
+		}
+		last := r.Results[len(r.Results)-1]
+		cands := []ssa.Value{last}
+		if p, ok := last.(*ssa.Phi); ok && p.Block() == b {
+			cands = p.Edges
+		}
+		for _, v := range cands {
+			if !isErrorType(v.Type()) {
+				continue
+			}
+			c := callOf(v)
+			if c == nil {
+				continue
+			}
+			if c13SelLabel(sel, "EQ("+descTailErr(c)+",nil)", nil, true) {
+				gc.tails[c] = true
+				gc.n++
+				continue
+			}
+			g := staticCallee(c)
+			if g == nil || g.Blocks == nil || !w.IsProductFn(g) || len(c.Call.Args) != len(g.Params) {
+				continue
+			}
+			if n := c13OutcomeBlocked(w, c, c13Outcome{errNil: true, k: -1}, sel, depth, busy); n > 0 {
+				gc.tails[c] = true
+				gc.n += n
+			}
+		}
+	}
+	return gc
+}
+
+// c13Witness: successWitness with the forwarded calls of gc not counted as success exits.
+func c13Witness(fi *FnInfo, starts []state, gc c13Gate, more ...map[edgeKey]bool) []string {
+	cut := map[edgeKey]bool{}
+	for e := range gc.cut {
+		cut[e] = true
+	}
+	for _, m := range more {
+		for e := range m {
+			cut[e] = true
+		}
+	}
+	saved := fi.ignoreTail
+	if len(gc.tails) > 0 {
+		fi.ignoreTail = gc.tails
+	}
+	wit := fi.successWitness(Mode{Kind: mErr}, starts, cut)
+	fi.ignoreTail = saved
+	return wit
+}
+
+// c13OutcomeReachable: with the establishing edges removed, can fn still leave with an outcome of the class?
+func c13OutcomeReachable(w *World, fn *ssa.Function, gc c13Gate, sel EdgeSel, cl c13Outcome, depth int, busy map[*ssa.Function]bool) bool {
+	fi := w.Info(fn)
+	if cl.k < 0 {
+		return c13Witness(fi, entryState(), gc) != nil
+	}
+	for st := range fi.reach(entryState(), gc.cut) {
+		b := fn.Blocks[st.b]
+		r, ok := blockTerm(b).(*ssa.Return)
+		if !ok || cl.k >= len(r.Results) {
+			continue
+		}
+		if cl.errNil {
+			c, tail, _, _ := fi.classify(r, state{st.b, fi.through(b, st.m), st.p}, Mode{Kind: mErr})
+			if c == clFail || (tail != nil && gc.tails[tail]) {
+				continue
+			}
+		}
+		v := r.Results[cl.k]
+		if p, ok := v.(*ssa.Phi); ok && p.Block() == b && st.p >= 0 && st.p < len(p.Edges) {
+			v = p.Edges[st.p]
+		}
+		if k, ok := v.(*ssa.Const); ok {
+			if k.Value != nil && k.Value.Kind() == constant.Bool && constant.BoolVal(k.Value) != cl.want {
+				continue // this exit delivers the other answer
+			}
+			return true
+		}
+		if c13SelLabel(sel, condLabel(v, cl.want), nil, cl.want) {
+			continue // the value handed back is itself the accepted fact: it is `want` only if the fact holds
+		}
+		if c, cl2, ok := c13EdgeOutcome(w, v, cl.want); ok && c13OutcomeBlocked(w, c, cl2, sel, depth, busy) > 0 {
+			continue // the answer of a further module predicate, which gives it only behind an accepted fact
+		}
+		return true
+	}
+	return false
+}
+
+// c13HasLabel: a fact of the set contains all subs. A disjunctive fact OR(a,b,…) — `case err == nil || other:` — counts only
+// if every alternative does: passing the edge means ONE of the alternatives held, and the searched fact must hold
+// whichever it was (fourth pass: the plain substring test accepted `OR(EQ(Lstat err,nil),NE(info,nil))` as "Lstat err == nil").
+func c13HasLabel(m map[string]string, subs ...string) bool {
+	var holds func(l string, depth int) bool
+	holds = func(l string, depth int) bool {
+		if strings.HasPrefix(l, "OR(") && depth < 4 {
+			_, alts := splitTopArgs(l)
+			for _, a := range alts {
+				if !holds(a, depth+1) {
+					return false
+				}
+			}
+			return len(alts) > 0
+		}
+		for _, s := range subs {
+			if !strings.Contains(l, s) {
+				return false
+			}
+		}
+		return true
+	}
+	for l := range m {
+		if holds(l, 0) {
+			return true
+		}
+	}
+	return false
 }
